@@ -116,7 +116,7 @@ static void set_env(const Env& env)
         if (e == env.end())
             unsetenv(v);
         else
-            setenv(v, e->second.c_str(), 1);
+            ref::put_in_place(v, e->second);
     }
 }
 
